@@ -93,6 +93,11 @@ def corpus():
             mk("ampl", "ElectricPotential", b"2.5 VPk"), mk("ampl", "ElectricPotential", b"2.5 kVrmS"), mk("ampl", "ElectricPotential", b"2.5 PK"), mk("db", "Power", b"3 DBM")]
 
 
+# elements that are not decimal numerics: every keyword another conversion gives a meaning to, in several spellings
+NONNUM = [b"ABC", b"MAX", b"MIN", b"MAXimum", b"minimum", b"INF", b"NINF", b"NAN", b"inf", b"INFinity", b"DEF", b"DEFault", b"UP", b"DOWN", b"ON", b"OFF",
+          b"'1'", b"\"2\"", b"#11", b"(1)", b"#HFF", b"#B1", b"#Q7"]
+
+
 def generate(rng, tier):
     units, logs = tables()
     out = []
@@ -113,7 +118,10 @@ def generate(rng, tier):
         for s in sorted(miss):
             if s and s.upper() not in [x.upper() for x in sufs] and (s[:1].isalpha() or s[:1] == b"/") and not (s[:1] in b"eE" and s[1:2].isdigit()):
                 out.append(mk("unit", q, b"1 " + s[:12], "miss"))
-        for e in (b"ABC", b"MAX", b"'1'", b"#11", b"(1)", b"#HFF"): out.append(mk("unit", q, e, "elem"))
+        for e in NONNUM: out.append(mk("unit", q, e, "elem"))
+        for e in rng.sample(NONNUM, 4): out.append(mk("ampl", q, e, "elem"))
+        # an amplitude specifier without a unit in front of it is not a suffix of the quantity
+        for a in (b"PK", b"PP", b"RMS", b"pk", b"Rms", b"PKPK", b"VPKX"): out.append(mk("ampl", q, b"1.5 " + a, "miss"))
         # the literal itself: every decimal form scales correctly (integers of 1..12 digits around 2^31/2^32/10^10, leading zeros,
         # explicit plus, fractions, exponents of both signs)
         for _ in range(12 if tier == "quick" else 120):
@@ -125,7 +133,8 @@ def generate(rng, tier):
         qents = [e for qq, _, e in units if qq == q][0]
         for ss, _ in qents:
             out.append(mk("db", q, b"2 " + ss[0].encode()))
-        out.append(mk("db", q, b"2 DBX", "miss")); out.append(mk("db", q, b"ABC", "elem"))
+        out.append(mk("db", q, b"2 DBX", "miss"))
+        for e in NONNUM: out.append(mk("db", q, e, "elem"))
     return out
 
 
